@@ -45,6 +45,10 @@ CHECKS={
         "For 8 objective differences x 5 temperatures the acceptance word is swept over 64 (quick) / 1024 (thorough) evenly spaced values, 0, 2^64-1 and the words around exp(-delta/T)*2^53: the candidate must survive exactly when delta <= 0 or u < exp(-delta/T); a decision taken without a generator word must have probability 0 or 1; stack effect checked with a sentinel population. Geometric cooling: temperature equals T0 * alpha^k bit-exactly after k executions.",
         "The candidate is the top population (as in the SA template). Words within 2^-52 of the threshold may go either way.",
         "DESIGN.md 5 C17"),
+ "C03":("program generator + choice-tape explorer","exhaustive enumeration of all configuration trees up to a node bound, each run on the real builder/Configuration under every scripted condition outcome (up to an evaluation cap) and every single fault-injection point, compared event by event with a reference interpreter",
+        "All trees over {leaf, while, if, if/else, scope, scope-with-initialiser-and-merger} with <= 3 (quick) / 5 (thorough) nodes and all 5^leaves leaf effects (plus all shapes of 4 nodes with a fixed effect pattern in quick), with and without the probed state in the caller: 1.97 M trees / 135 M executions thorough. For every execution the full (phase, node, visible state, visible iteration counter, scope depth) trace, the result (first error) and the caller's final state (scope depth 1, exactly the reference entries) must equal the reference interpreter's.",
+        "Condition outcomes are exhaustive for the first 5 / 6 evaluations of an execution and false afterwards; at most one injected error per execution. Larger trees assumed to compose.",
+        "DESIGN.md 5 C03"),
 }
 CHECKS_DONE=1
 BASE=json.load(open('/root/.vp/BASELINE.json'))
